@@ -800,6 +800,51 @@ Fixpoint goto_type_mismatch (env : list (string * option fty)) (t : fterm) : boo
 Definition goto_type_mismatch_prog (p : fcprog) : bool :=
   existsb (fun d => goto_type_mismatch (env_of_ctx (fdctx d) []) (fdbody d)) (fcpdefs p).
 
+(* ---------- calls_main: the third defect class (call-to-main) ----------
+   compile_main gives the Core definition `main` no return-continuation parameter (its body ends in
+   `exit`), but wc_call passes `args ++ [continuation]` to every callee: a call whose target is `main`
+   has one argument too many; the Core machine is stuck "call-arity", natively the extra argument is
+   ignored and the callee exits the process instead of returning.  [calls_main t]: some call in t
+   targets `main`. *)
+Fixpoint calls_main (t : fterm) : bool :=
+  let any := fix go (l : list fterm) : bool :=
+    match l with [] => false | y :: r => calls_main y || go r end in
+  let any_cls := fix go (l : list fclause) : bool :=
+    match l with [] => false | FClause _ _ _ _ body :: r => calls_main body || go r end in
+  match t with
+  | FVar _ _ _ | FLit _ => false
+  | FOp a _ b => calls_main a || calls_main b
+  | FIfC _ a b t1 t2 _ =>
+      calls_main a || (match b with Some b' => calls_main b' | None => false end) || calls_main t1 || calls_main t2
+  | FPrint _ a next _ => calls_main a || calls_main next
+  | FLet _ _ bound body _ => calls_main bound || calls_main body
+  | FCall f args _ => String.eqb f "main" || any args
+  | FCtor _ args _ => any args
+  | FDtor scrut _ _ args _ => calls_main scrut || any args
+  | FCase scrut _ cls _ => calls_main scrut || any_cls cls
+  | FNew cls _ => any_cls cls
+  | FLabel _ t' _ => calls_main t'
+  | FGoto _ t' _ => calls_main t'
+  | FExit a _ => calls_main a
+  | FParen t' => calls_main t'
+  end.
+Definition calls_main_prog (p : fcprog) : bool := existsb (fun d => calls_main (fdbody d)) (fcpdefs p).
+
+(* the witness (corpus/fun/call_main_nontail.sc as the type checker annotates it; tied to the real
+   CheckedProgram by modelrun like capture_witness) *)
+Definition call_main_witness : fcprog :=
+  mkfcprog [] []
+    [mkfdef "main" [mkfb "n" FPrd FI64] FI64
+       (FIfC FEq (FVar "n" (Some FI64) (Some FPrd)) None
+          (FLit 7)
+          (FPrint true (FVar "n" (Some FI64) (Some FPrd))
+             (FLet "r" FI64 (FCall "main" [FLit 0] (Some FI64))
+                (FPrint true (FOp (FVar "r" (Some FI64) (Some FPrd)) FSum (FLit 100))
+                   (FOp (FVar "r" (Some FI64) (Some FPrd)) FSum (FLit 1)) (Some FI64))
+                (Some FI64))
+             (Some FI64))
+          (Some FI64))].
+
 (* ---------- the capture witness (corpus/fun/capture1.sc as the type checker annotates it).
    modelrun compares this value with the real CheckedProgram of that file on every run; the
    theorem fun2core_capture_refuted is about this value. ---------- *)
